@@ -357,12 +357,21 @@ func c03Doc(r *Rng, adversarial bool) ([]rOp, J) {
 			shuffle(r, ol)
 			o.OpLevel = ol
 			op := J{"operationId": o.ID, "responses": J{"204": J{"description": "d"}}}
-			if len(ol) > 0 {
+			{
 				ps := []interface{}{}
+				// a parameter of another location with the name of a path variable, declared before every path parameter
+				// of the operation (OpenAPI tells parameters apart by name AND location): an optional integer that the
+				// requests never send
+				if len(vars) > 0 && r.Chance(35) {
+					loc := r.Pick([]string{"query", "header", "cookie"})
+					ps = append(ps, J{"name": vars[r.Intn(len(vars))], "in": loc, "schema": J{"type": "integer"}})
+				}
 				for _, v := range ol {
 					ps = append(ps, J{"name": v, "in": "path", "required": true, "schema": J{"type": "string"}})
 				}
-				op["parameters"] = ps
+				if len(ps) > 0 {
+					op["parameters"] = ps
+				}
 			}
 			pi[strings.ToLower(m)] = op
 			ops = append(ops, o)
@@ -691,6 +700,8 @@ func runC03(ctx *Ctx) error {
 								gotBind[strings.ToLower(k)] = fmt.Sprint(v)
 							}
 						}
+						// the parameter object (query/header/cookie parameters, never sent here) is no path variable
+						delete(gotBind, "params")
 					}
 					if gotID != wantID || (wantID != "" && Canon(gotBind) != Canon(wantBind)) {
 						cls := "wrong-args"
